@@ -54,6 +54,26 @@ fn rel_cwd(base: &std::path::Path, cwd: &[u8]) -> Vec<u8> {
 
 impl Prop for PExec {
     fn run(&mut self, input: &Value) -> Value {
+        if input["mode"] == "rootdir" {
+            // the starting point "/" has no parent directory: -execdir runs the command there, in both forms, and
+            // a pending '{} +' command line is run before find exits like any other
+            let dir = fresh_case_dir(&self.sb, &mut self.counter);
+            let log = dir.parent().unwrap().join("vrec.log");
+            let _ = std::fs::remove_file(&log);
+            let plus = input["plus"].as_bool().unwrap_or(true);
+            let mut args: Vec<String> = vec!["/".into(), "-maxdepth".into(), "0".into(), (if input["execdir"].as_bool().unwrap_or(true) { "-execdir" } else { "-exec" }).into(),
+                                             vrec_path().to_string_lossy().into_owned(), "{}".into()];
+            args.push(if plus { "+".into() } else { ";".into() });
+            let env = vec![("VREC_LOG".to_string(), log.to_string_lossy().into_owned())];
+            let r = run_find_bin(&dir, &args, None, &env, 60);
+            if r.panicked {
+                return json!({"panic": true, "args": args});
+            }
+            let (execs, cwds, _) = read_log(&log);
+            return json!({"nexec": execs.len(), "exit": r.exit,
+                          "argv": execs.first().map(|a| a.iter().map(|x| bytes_to_json(x)).collect::<Vec<_>>()).unwrap_or_default(),
+                          "cwd": cwds.first().map(|c| bytes_to_json(c)).unwrap_or_else(|| json!([]))});
+        }
         let dir = fresh_case_dir(&self.sb, &mut self.counter);
         let dir = dir.canonicalize().unwrap_or(dir);
         let tree = parse_tree(&input["tree"]);
@@ -157,6 +177,9 @@ impl Prop for PExec {
     }
 
     fn gen(&mut self, rng: &mut Rng, idx: usize, tier: &str) -> Value {
+        if idx % 50 == 17 {
+            return json!({"mode": "rootdir", "execdir": !rng.chance(1, 4), "plus": if self.flavour == "C08" { true } else { false }});
+        }
         // a random tree with hostile names, -P, starting points that are not links
         let hostile: [&str; 16] = ["a", "b c", "{}", "-n", "q'\"", "x\ny", " ", "*", "$(id)", "é", "a{}b", "--", ";", "+", "\\", "{} {}"];
         let n = 2 + rng.below(if tier == "thorough" { 14 } else { 8 });
@@ -208,7 +231,8 @@ impl Prop for PExec {
         let execdir = rng.chance(1, 2);
         let mut script = vec![];
         for _ in 0..rng.below(2 * n) {
-            script.push(*rng.pick(&[0u64, 0, 0, 1, 2, 255]));
+            // (1000 + s: the command is killed by signal s - it did not exit with status 0)
+            script.push(*rng.pick(&[0u64, 0, 0, 1, 2, 255, 1009, 1015, 1013]));
         }
         if self.flavour == "C09" {
             // (also words that mean something to find itself when they stand in the expression: inside the action they
@@ -254,6 +278,19 @@ impl Prop for PExec {
                 if k > 10 && k < 1500 {
                     return build(k + rng.below(3));
                 }
+            }
+            if idx % 9 == 6 {
+                // -execdir: the command line of a directory is run when the walk leaves it - while the next entry is being
+                // evaluated; that invocation fails, and -quit is reached on that very entry: the failure still counts
+                let tree = vec![json!({"parent": 0, "name": str_to_json("d"), "kind": "d", "target": 0}),
+                                json!({"parent": 1, "name": str_to_json("a"), "kind": "d", "target": 0}),
+                                json!({"parent": 2, "name": str_to_json("f1"), "kind": "f", "target": 0}),
+                                json!({"parent": 1, "name": str_to_json("b"), "kind": "f", "target": 0}),
+                                json!({"parent": 1, "name": str_to_json("c"), "kind": "f", "target": 0})];
+                let (script, quit) = rng.pick(&[(vec![0u64, 0, 3], "d/b"), (vec![0, 2], "d/a/f1"), (vec![1], "d/a"), (vec![0, 0, 1009], "d/b")]).clone();
+                return json!({"mode": "multi", "tree": tree, "roots": [{"spell": str_to_json("d"), "node": 1}],
+                              "cfg": {"mode": "P", "min": 0, "max": super::pwalk::NOMAX, "depth": false, "sorted": true, "prune": []},
+                              "pre": {"p": "none"}, "fixed": [], "execdir": true, "script": script, "quit": str_to_json(quit), "nocmd": false, "two": false});
             }
             if idx % 9 == 4 {
                 // many long names under a small stack limit: several invocations, also within one directory
